@@ -71,6 +71,43 @@ ITEMS = [
          "__call__": {"params": {"index": TList(TOpt(INT))}, "vararg": "index"},
          "to_index": {"params": {"lit": INT}},
      }},
+    {"file": VARS, "class": "UnaryMappingVariables", "property": "C11",
+     "methods": {
+         "__init__": {"params": {"formula": TAbs("AbsFormula"), "G": TAbs("AbsBipGraph"), "labelfmt": ERASED}},
+         "__len__": {"params": {}},
+         "__contains__": {"params": {"lit": INT}},
+         "domain": {"params": {"v": TOpt(INT)}},
+         "range": {"params": {"u": TOpt(INT)}},
+         "indices": {"params": {"pattern": TList(TOpt(INT))}, "vararg": "pattern"},
+         "_unsafe_index_to_lit": {"params": {"index": TList(INT)}, "lean": "index_to_lit"},
+         "__call__": {"params": {"index": TList(TOpt(INT))}, "vararg": "index"},
+         "to_index": {"params": {"lit": INT}},
+     }},
+    {"file": VARS, "class": "SingletonVariableGroup", "property": "C11",
+     "methods": {
+         "__init__": {"params": {"formula": TAbs("AbsFormula"), "name": ERASED}},
+         "__len__": {"params": {}},
+         "__contains__": {"params": {"lit": INT}},
+         "__getitem__": {"params": {"choices": INT}, "lean": "getitem"},
+         "__call__": {"params": {}},
+         "indices": {"params": {"pattern": TList(TOpt(INT))}, "vararg": "pattern"},
+         "to_index": {"params": {"lit": INT}},
+     }},
+    # the edge groups of directed / simple graphs: wrappers around a BipartiteEdgesVariables on an auxiliary graph
+    # (their constructors build that graph with BipartiteGraph.add_edge: not translated, fields declared)
+    {"file": VARS, "class": "DiGraphEdgesVariables", "property": "C11",
+     "fields": {"sortby": STR, "VG": TObj("BipartiteEdgesVariables")},
+     "methods": {
+         "to_index": {"params": {"lit": INT}},
+         "indices": {"params": {"pattern": TList(TOpt(INT))}, "vararg": "pattern"},
+         "_unsafe_index_to_lit": {"params": {"index": TList(INT)}, "lean": "index_to_lit"},
+     }},
+    {"file": VARS, "class": "GraphEdgesVariables", "property": "C11",
+     "fields": {"BG": TObj("BipartiteEdgesVariables")},
+     "methods": {
+         "to_index": {"params": {"lit": INT}},
+         "_unsafe_index_to_lit": {"params": {"index": TList(INT)}, "lean": "index_to_lit"},
+     }},
     # ---- C04: normalisation of a pseudo-Boolean constraint `[(coeff, lit), …, op, value]`
     {"file": "cnfgen/formula/baseopb.py", "function": "normalize_opb", "property": "C04",
      "params": {"constraint": THet(TTuple([INT, INT]), [STR, INT])}},
